@@ -44,10 +44,15 @@ type env struct {
 	shared  int // 0: solo run, 1: concurrent run on the shared world
 	th      *starlark.Thread
 	printed strings.Builder // output of print() during the current op (thread-local)
+
+	// ownership arm: a value private to this goroutine (ops pass it to shared code and replace
+	// it by "<TAG>" in their transcript, so that a foreign goroutine's tag stands out)
+	tag string
+	pre starlark.StringDict // predeclared environment of own-arm programs: w.env + TAG
 }
 
 func newEnv(w *world, shared int, name string) *env {
-	e := &env{w: w, shared: shared}
+	e := &env{w: w, shared: shared, tag: "tag<" + name + ">"}
 	e.th = &starlark.Thread{Name: name, Print: func(_ *starlark.Thread, msg string) { e.printed.WriteString(msg + "\n") }}
 	return e
 }
@@ -191,6 +196,7 @@ var tmpls = []tmpl{
 	{"slice", "slice", "index", "r = $X[$I:$J]", false},
 	{"slice-step", "slice", "index", "r = $X[$I:$J:$K]", false},
 	{"slice-rev", "slice", "index", "r = ($X[::-1], $X[:], $X[1:])", false},
+	{"slice-concat", "slice", "index", "r = ($X[:$I] + $X[$J:], $X[$I:$J] + $X[:1], $X[:2] * 2, $X)", false},
 	{"concat-repeat", "read", "index", "r = ($X + $X, $X * 2, 2 * $X)", false},
 	// dict
 	{"dict-index", "index", "dict", "r = $X[$E]", false},
@@ -253,6 +259,7 @@ var tmpls = []tmpl{
 	{"mut-bound-append", "mutate", "any", "BM_APPEND($E)", true},
 	{"mut-bound-update", "mutate", "any", "BM_UPDATE(zz = 1)", true},
 	{"mut-bound-add", "mutate", "any", "BM_ADD(123456)", true},
+	{"mut-bound-sole-append", "mutate", "any", "BM_SOLE_APPEND($E)", true},
 	{"mut-via-getattr", "mutate", "list", "getattr($X, \"append\")($E)", true},
 	{"mut-in-loop", "mutate", "list", "def m(v):\n    for e in v:\n        v.append(e)\n    v.append(0)\nm($X)", true},
 	// mutator-shaped calls that change nothing (legitimately succeed or fail; transcript only)
